@@ -235,7 +235,11 @@ def _methods(u, t, finite, tier):
     out.append(("alpha_mart", "shrink_trunc", None, {}))
     # ALPHA x optimal comparison (overstatement bounds only)
     if u > 1:
-        for r in ([1e-4, 0.1] if tier == "quick" else [1e-4, 1e-2, 0.1, 0.4]):
+        # the rate that puts the closed-form alternative just above t (a tenth of the way to u): inside [t, u), so neither
+        # clipped to u nor (at first) lifted to the null mean
+        g_ = 1 / (2 - 2 * u)
+        near = 1 - (t + (u - t) / 10 - g_ + F(1, 2)) / (u * (1 - g_))
+        for r in ([1e-4, 0.1, float(near)] if tier == "quick" else [1e-4, 1e-2, 0.1, 0.4, float(near)]):
             out.append(("alpha_mart", "optimal_comparison", None, {"rate_error_2": r}))
     # betting x fixed bet (lambda <= 1/u)
     for lam in [1 / (2 * u), 1 / u, min(F(1, 4), 1 / u)]:
